@@ -82,11 +82,25 @@ func interestingRaws(a *AxisDef, dz float64) []int32 {
 	return out
 }
 
+// drawAxisCodes: n distinct axis codes: the usual ones (sticks, triggers, hats), or - half of the time - any of the axes
+// the kernel names (throttle, rudder, wheel, pressure, tilt, the multi-touch block ...): the code is a name, nothing more.
+func drawAxisCodes(t *rapid.T, usual []uint16, n int) []uint16 {
+	if rapid.Bool().Draw(t, "anyAxisCode") {
+		perm := rapid.Permutation(indices(len(allAbsCodes))).Draw(t, "axisCodes")
+		out := make([]uint16, n)
+		for i := range out {
+			out[i] = allAbsCodes[perm[i]]
+		}
+		return out
+	}
+	return usual[:n]
+}
+
 func genC06(t *rapid.T) AxisCase {
 	d := baseAxisDesc(t)
 	m := &d.Mappings[0]
 	rg := rapid.SampledFrom(axisRanges).Draw(t, "range")
-	a := AxisDef{Sub: "", Code: uint16(rapid.SampledFrom([]int{0, 1, 2, 5, 0x10}).Draw(t, "code")), Min: rg.Min, Max: rg.Max}
+	a := AxisDef{Sub: "", Code: drawAxisCodes(t, []uint16{uint16(rapid.SampledFrom([]int{0, 1, 2, 5, 0x10}).Draw(t, "code"))}, 1)[0], Min: rg.Min, Max: rg.Max}
 	switch rapid.IntRange(0, 2).Draw(t, "kind") {
 	case 0:
 		a.Type = "cc"
@@ -242,9 +256,10 @@ func genC07(t *rapid.T) AxisCase {
 	m.AnalogSubs = []AnalogSub{{Sub: "", Default: floatp(genDeadzone(t, "subdz"))}}
 	nAxes := rapid.IntRange(1, 3).Draw(t, "axes")
 	ccs := rapid.Permutation(indices(120)).Draw(t, "ccs")
+	c07Codes := drawAxisCodes(t, []uint16{0, 1, 3}, nAxes)
 	for i := 0; i < nAxes; i++ {
 		rg := rapid.SampledFrom([]axisRange{{-128, 127}, {-32768, 32767}, {0, 255}, {0, 1023}, {-1, 1}, {-127, 127}}).Draw(t, "range")
-		a := AxisDef{Sub: "", Code: []uint16{0, 1, 3}[i], Type: "cc", Min: rg.Min, Max: rg.Max, CC: intp(ccs[2*i]), CCNeg: intp(ccs[2*i+1])}
+		a := AxisDef{Sub: "", Code: c07Codes[i], Type: "cc", Min: rg.Min, Max: rg.Max, CC: intp(ccs[2*i]), CCNeg: intp(ccs[2*i+1])}
 		if (rg.Min == 0 && rapid.IntRange(0, 3).Draw(t, "center") > 0) || (rg.Min < 0 && rapid.IntRange(0, 5).Draw(t, "centerOnSigned") == 0) {
 			a.Center = boolp(true) // on a signed axis the option has nothing to move
 		}
@@ -359,9 +374,10 @@ func genC08(t *rapid.T) AxisCase {
 	}
 	m.AnalogSubs = []AnalogSub{{Sub: "", Default: floatp(rapid.SampledFrom([]float64{0, 0, 0.1, 0.2}).Draw(t, "subdz"))}}
 	nAxes := rapid.IntRange(1, 2).Draw(t, "axes")
+	c08Codes := drawAxisCodes(t, []uint16{0x10, 0x11}, nAxes)
 	for i := 0; i < nAxes; i++ {
 		rg := rapid.SampledFrom([]axisRange{{-1, 1}, {-1, 1}, {-32768, 32767}, {-128, 127}, {0, 255}, {0, 1023}}).Draw(t, "range")
-		a := AxisDef{Sub: "", Code: []uint16{0x10, 0x11}[i], Type: "key", Min: rg.Min, Max: rg.Max}
+		a := AxisDef{Sub: "", Code: c08Codes[i], Type: "key", Min: rg.Min, Max: rg.Max}
 		note := rapid.OneOf(rapid.IntRange(0, 127), rapid.SampledFrom([]int{0, 1, 126, 127, 60})).Draw(t, "note")
 		a.Note = intp(note)
 		if rapid.IntRange(0, 2).Draw(t, "hasNeg") > 0 {
@@ -459,3 +475,15 @@ func genC08(t *rapid.T) AxisCase {
 func TestC06(t *testing.T) { ReplayOrRapid(t, NewRun(t, "C06"), checkC06, genC06) }
 func TestC07(t *testing.T) { ReplayOrRapid(t, NewRun(t, "C07"), checkC07, genC07) }
 func TestC08(t *testing.T) { ReplayOrRapid(t, NewRun(t, "C08"), checkC08, genC08) }
+
+func genC07Burst(t *rapid.T) C07BurstCase {
+	c := genC07(t)
+	// more positions than a queue of 8 holds, alternating sides often (genC07 does that), the tail of them back to back
+	for len(c.Steps) < 24 {
+		c.Steps = append(c.Steps, c.Steps...)
+	}
+	return C07BurstCase{C: c, BurstFrom: rapid.IntRange(0, len(c.Steps)/2).Draw(t, "burstFrom"),
+		QueueCap: rapid.SampledFrom([]int{8, 8, 8, 1, 2, 32}).Draw(t, "queueCap"), ReaderDelayUs: rapid.SampledFrom([]int{50, 100, 200, 400}).Draw(t, "readerUs")}
+}
+
+func TestC07Burst(t *testing.T) { ReplayOrRapid(t, NewRun(t, "C07"), checkC07Burst, genC07Burst) }
